@@ -35,9 +35,12 @@ CLAIMED = {
               "get_function / get_function_object(_int) / QuickFlatMap::find is control- or data-dependent on a comparison "
               "with the name (following local initialisers and lambda captures); positions taken from a per-node cache index a "
               "scope stack or scope only under a size comparison; the hinted find validates size and key; and the global/"
-              "function lookup must be dominated by the scan of the local scope stack - the last obligation fails on the "
-              "current tree and is listed as a known finding with its replay (a node cached as 'not a local' ignores a local "
-              "introduced later by eval()). Not decided: full equivalence with caching disabled on generated programs."),
+              "function lookup must be dominated by the scan of the local scope stack; on the cached-local path a value is "
+              "returned only from the exact remembered slot or from a complete re-resolution, and only after the nearer "
+              "scopes were checked for the name. Two obligations fail on the current tree and are listed as known findings "
+              "with replays (a node cached as 'not a local' ignores a local introduced later by eval(); a remembered outer "
+              "slot wins over an inner variable of the same name introduced later) - both are the same design limit of the "
+              "per-node cache. Not decided: full equivalence with caching disabled on generated programs."),
         technique="control/data-dependence rules on the structured tree, bounds-dominance, dominance of the scope scan",
         ref="DESIGN.md section 4 C04"),
     "C06": dict(
@@ -49,9 +52,13 @@ CLAIMED = {
               "get_const_ptr(), smart-pointer results from Any::cast of the exact type; Any::cast and the base/derived casters "
               "test the stored/source type first; eval<T>, boxed_cast<T> and std::function callers return only a checked "
               "cast of the script value; dispatch calls the selected overload as the operand of return inside "
-              "try{bad_boxed_cast, arity_error, guard_error} and raises dispatch_error when nothing matched. Not decided: "
-              "overload ranking among several viable candidates; a user function that itself throws bad_boxed_cast makes "
-              "dispatch try the next overload (noted in DESIGN.md)."),
+              "try{bad_boxed_cast, arity_error, guard_error} and raises dispatch_error when nothing matched; candidates are "
+              "ranked by the number of parameters whose bare type differs from the argument's, ranks are tried in ascending "
+              "order from 0 and an exact candidate is entered without a conversion filter (the 'exact match is chosen' "
+              "clause); the untyped data pointer of a box is cast to a typed pointer only in the verified cast kernel, in the "
+              "arithmetic kernel, or under a dominating test that the box holds exactly that type (a base-class conversion "
+              "adjusts the pointer, never reinterprets it). Not decided: ranking among candidates of equal rank; a user "
+              "function that itself throws bad_boxed_cast makes dispatch try the next overload (noted in DESIGN.md)."),
         technique="per-instantiation structural rules over the call/cast kernels (template arguments compared with signature types), who-may-call",
         ref="DESIGN.md section 4 C06"),
     "C05": dict(
@@ -112,7 +119,8 @@ CLAIMED = {
               "is finished explicitly after its last parse() on every normal path (the destructor, which swallows eval_error, "
               "is never the one to complete an escape) and no other handler on the parse path swallows eval_error; (4) the "
               "if-ladder of buildInt, extracted as boolean formulas over its flags and range tests, yields the C++ "
-              "literal type on all 48 well-formed (suffix, base, magnitude-class) cases; float suffixes select float/long "
+              "literal type on all well-formed (suffix, base, magnitude-class) cases for each of the four (base, prefixed) argument "
+              "pairs with which Num() actually calls it (decimal, octal, hex, binary); float suffixes select float/long "
               "double/double; Num() maps 0x/0b/leading 0 to bases 16/2/8. Not decided: float accuracy in ulps, the digit "
               "arithmetic of std::stoll/parse_num, UTF-8 encoding arithmetic."),
         technique="hash-use inventory + guard rule, table extraction, typestate by abstract interpretation, symbolic evaluation of the typing ladder on all abstract cases",
@@ -179,7 +187,9 @@ CLAIMED = {
               "written and no non-const member function of a node is called (hundreds of accesses classified, also through "
               "shared_ptr-held function bodies captured by lambdas); const removal is inventoried by C07 R7.2; constants are "
               "created const (C07 R7.8) and handed out by value; container literals build a fresh local container per "
-              "evaluation whose element values all pass through clone_if_necessary; `var x = e` and first assignment clone. "
+              "evaluation whose element values all pass through clone_if_necessary; `var x = e` and first assignment clone; "
+              "no Constant node holds a value whose type contains Boxed_Value handles (constness of a boxed container is "
+              "shallow, its elements would be shared by every evaluation). "
               "Not decided: equality of results of repeated calls on generated functions (follows from the above plus C07)."),
         technique="class-hierarchy-wide const/mutable inventory, who-may-write rule over resolved accesses, def-use checks",
         ref="DESIGN.md section 4 C08"),
@@ -227,7 +237,12 @@ CLAIMED = {
               "use) declare too - fails on the current tree and is a listed known finding with replay; (3) no exception can "
               "leave Optimizer::optimize: exception flow over the 845 functions it reaches, with guard-aware call sites "
               "(boxed_cast after a type test, dynamic_cast after an identifier test, Boxed_Number after is_arithmetic()) and "
-              "the checked invariant that no Get_Type_Info instantiation flags bool as arithmetic."),
+              "the checked invariant that no Get_Type_Info instantiation flags bool as arithmetic; (4) the call node that "
+              "does not keep its arguments alive replaces only calls whose value is discarded (never a block's last "
+              "statement); (5) no pass reorders children; (6) Dead_Code drops only node kinds whose evaluator can neither "
+              "throw nor have an effect (exception flow over those evaluators); (7) `if (constant)` keeps the arm the "
+              "evaluator would run and the compiled for-loop implements exactly the comparison and step its pattern accepts, "
+              "from the pattern's own constants."),
         technique="referent classification (escape rule), cross-module table agreement between optimizer predicate and evaluator bodies, interprocedural exception flow with dominating-fact call-site filters",
         ref="DESIGN.md section 4 C02"),
     "C03": dict(
@@ -286,7 +301,8 @@ CLAIMED = {
               "guard minus elements consumed, short-circuit aware); the end that is read is the end that is dropped; a "
               "callback applied to the current element is called exactly once per iteration; no parameter or alias of one "
               "(:=, &) is assigned, stepped, mutated through a member or handed to back_inserter/bind(push_back) outside the "
-              "six functions whose contract is to mutate; on the C++ side Bidir_Range::pop_front/pop_back move only the "
+              "six functions whose contract is to mutate; no numeric parameter is compared with an unsigned size() (a negative "
+              "count would wrap); on the C++ side Bidir_Range::pop_front/pop_back move only the "
               "view's iterators. Not decided: results (counts, order of combination), behaviour of the C++ functions called."),
         technique="script-level lint: independent subset parser + abstract interpretation (element lower bounds, per-iteration counters) + alias-aware who-may-mutate rule; one supporting rule over the C++ view class",
         ref="DESIGN.md section 4 C17 and 8.5"),
